@@ -95,27 +95,31 @@ Qed.
 
 (* process_downstream_ack while a packet is in flight *)
 Lemma ack_miss u s f :
-  (Z.of_N (p_seqno (u_out u)) =? s)%Z && (p_fragment (u_out u) =? f)%Z = false -> process_downstream_ack u s f = u.
+  (Z.of_N (p_seqno (u_out u)) =? s)%Z && (p_fragment (u_out u) =? f)%Z && negb (p_sentlen (u_out u) =? 0) = false ->
+  process_downstream_ack u s f = u.
 Proof.
-  intros H. unfold process_downstream_ack. cbv zeta. destruct (p_len (u_out u) =? 0); [reflexivity|]. rewrite H. reflexivity.
+  intros H. unfold process_downstream_ack. cbv zeta. destruct (p_len (u_out u) =? 0); [reflexivity|].
+  destruct ((Z.of_N (p_seqno (u_out u)) =? s)%Z && (p_fragment (u_out u) =? f)%Z); [|reflexivity].
+  cbn [negb andb] in *. apply negb_false_iff in H. rewrite H. reflexivity.
 Qed.
 
 Lemma ack_hit_more u s f :
-  0 < p_len (u_out u) ->
+  0 < p_len (u_out u) -> 0 < p_sentlen (u_out u) ->
   (Z.of_N (p_seqno (u_out u)) =? s)%Z && (p_fragment (u_out u) =? f)%Z = true ->
   p_offset (u_out u) + p_sentlen (u_out u) < p_len (u_out u) ->
   process_downstream_ack u s f =
   u <| u_out := (u_out u) <| p_offset := p_offset (u_out u) + p_sentlen (u_out u) |> <| p_sentlen := 0 |>
                          <| p_fragment := schar_wrap (p_fragment (u_out u) + 1) |> |> <| u_resent := 0 |>.
 Proof.
-  intros Hl Hm Hlt. unfold process_downstream_ack. cbv zeta.
-  assert (E0 : (p_len (u_out u) =? 0) = false) by (apply N.eqb_neq; lia). rewrite E0, Hm. cbn [negb]. cbn.
+  intros Hl Hsl Hm Hlt. unfold process_downstream_ack. cbv zeta.
+  assert (E0 : (p_len (u_out u) =? 0) = false) by (apply N.eqb_neq; lia). rewrite E0, Hm. cbn [negb].
+  assert (Es : (p_sentlen (u_out u) =? 0) = false) by (apply N.eqb_neq; lia). rewrite Es. cbn.
   assert (E1 : (p_len (u_out u) <=? p_offset (u_out u) + p_sentlen (u_out u)) = false) by (apply N.leb_gt; exact Hlt).
   rewrite E1. reflexivity.
 Qed.
 
 Lemma ack_hit_done u s f :
-  0 < p_len (u_out u) ->
+  0 < p_len (u_out u) -> 0 < p_sentlen (u_out u) ->
   (Z.of_N (p_seqno (u_out u)) =? s)%Z && (p_fragment (u_out u) =? f)%Z = true ->
   p_len (u_out u) <= p_offset (u_out u) + p_sentlen (u_out u) ->
   process_downstream_ack u s f =
@@ -126,8 +130,9 @@ Lemma ack_hit_done u s f :
                             <| p_fragment := schar_wrap (p_fragment (u_out u) + 1) |> <| p_len := 0 |> <| p_offset := 0 |>
                             <| p_fragment := schar_wrap (schar_wrap (p_fragment (u_out u) + 1) - 1) |> |>)).
 Proof.
-  intros Hl Hm Hge. unfold process_downstream_ack. cbv zeta.
-  assert (E0 : (p_len (u_out u) =? 0) = false) by (apply N.eqb_neq; lia). rewrite E0, Hm. cbn [negb]. cbn.
+  intros Hl Hsl Hm Hge. unfold process_downstream_ack. cbv zeta.
+  assert (E0 : (p_len (u_out u) =? 0) = false) by (apply N.eqb_neq; lia). rewrite E0, Hm. cbn [negb].
+  assert (Es : (p_sentlen (u_out u) =? 0) = false) by (apply N.eqb_neq; lia). rewrite Es. cbn.
   assert (E1 : (p_len (u_out u) <=? p_offset (u_out u) + p_sentlen (u_out u)) = true) by (apply N.leb_le; exact Hge).
   rewrite E1. reflexivity.
 Qed.
@@ -145,11 +150,12 @@ Inductive flight (F : N) (data : list N) : suser -> list (list N) -> Prop :=
     flight F data u' ps
 | fl_ack_miss u ps s f :
     flight F data u ps ->
-    (Z.of_N (p_seqno (u_out u)) =? s)%Z && (p_fragment (u_out u) =? f)%Z = false ->
+    (Z.of_N (p_seqno (u_out u)) =? s)%Z && (p_fragment (u_out u) =? f)%Z && negb (p_sentlen (u_out u) =? 0) = false ->
     flight F data (process_downstream_ack u s f) ps
 | fl_ack_hit u ps s f :
     flight F data u ps -> (0 <= f <= 15)%Z ->
     (Z.of_N (p_seqno (u_out u)) =? s)%Z && (p_fragment (u_out u) =? f)%Z = true ->
+    0 < p_sentlen (u_out u) ->
     p_offset (u_out u) + p_sentlen (u_out u) < p_len (u_out u) ->
     flight F data (process_downstream_ack u s f)
       (ps ++ [firstn (N.to_nat (p_sentlen (u_out u))) (skipn (N.to_nat (p_offset (u_out u))) data)])
@@ -161,7 +167,8 @@ Definition flight_inv (F : N) (data : list N) (u : suser) (ps : list (list N)) :
   p_data ou = data /\ p_len ou = N.of_nat (length data) /\ p_offset ou < p_len ou /\
   concat ps = firstn (N.to_nat (p_offset ou)) data /\
   p_fragment ou = Z.of_nat (length ps) /\ (length ps <= 16)%nat /\
-  (p_sentlen ou = 0 \/ p_sentlen ou = dlen F (p_len ou) (p_offset ou)).
+  (p_sentlen ou = 0 \/ p_sentlen ou = dlen F (p_len ou) (p_offset ou)) /\
+  Forall (fun p => p <> []) ps.
 
 Lemma firstn_skipn_tile {A} (l : list A) a b :
   firstn a l ++ firstn b (skipn a l) = firstn (a + b) l.
@@ -172,17 +179,18 @@ Qed.
 
 Lemma flight_ok F data u ps : flight F data u ps -> flight_inv F data u ps.
 Proof.
-  intros H. induction H as [u0 Hne Hlen|u ps w u' o ag H IH HF Hres Hs Hnd|u ps s f H IH Hm|u ps s f H IH Hf Hm Hlt|u ps u' H IH Ho].
+  intros H. induction H as [u0 Hne Hlen|u ps w u' o ag H IH HF Hres Hs Hnd|u ps s f H IH Hm|u ps s f H IH Hf Hm Hsl Hlt|u ps u' H IH Ho].
   - unfold flight_inv, start_new_outpacket. cbn.
     rewrite firstn_all2 by exact Hlen. repeat split; try reflexivity; try lia.
     all: try (left; reflexivity).
+    all: try (constructor).
     all: destruct data; [contradiction|]; cbn [length]; lia.
-  - destruct IH as (A & B & C & D & E & G & S).
+  - destruct IH as (A & B & C & D & E & G & S & NE).
     destruct (scd_inflight u w u' o ag ltac:(lia) Hres Hs) as [_ K]. cbv zeta in K. rewrite HF in K.
     destruct (K Hnd) as (O & _ & _). unfold flight_inv. rewrite O. cbn.
     repeat split; try assumption. right. reflexivity.
   - rewrite ack_miss by exact Hm. exact IH.
-  - destruct IH as (A & B & C & D & E & G & S).
+  - destruct IH as (A & B & C & D & E & G & S & NE).
     rewrite ack_hit_more by (try assumption; lia).
     unfold flight_inv. cbn. repeat split; try assumption; try lia.
     + rewrite concat_app. cbn [concat]. rewrite app_nil_r, D.
@@ -190,6 +198,8 @@ Proof.
     + apply andb_prop in Hm. destruct Hm as [_ Hm]. apply Z.eqb_eq in Hm.
       rewrite app_length. cbn [length]. unfold schar_wrap. lia.
     + apply andb_prop in Hm. destruct Hm as [_ Hm]. apply Z.eqb_eq in Hm. rewrite app_length. cbn [length]. lia.
+    + apply Forall_app. split; [exact NE|]. constructor; [|constructor].
+      intros Hnil. apply (f_equal (@length N)) in Hnil. rewrite firstn_length, skipn_length in Hnil. cbn [length] in Hnil. lia.
   - unfold flight_inv. rewrite Ho. exact IH.
 Qed.
 
@@ -204,7 +214,7 @@ Lemma flight_emission F data u ps w u' o ag :
         (scd_b0 u :: ((p_seqno (u_out u) mod 8) * 32 + N.of_nat (length ps mod 16) * 2 + (if last then 1 else 0))
            :: firstn (N.to_nat dl) (skipn (N.to_nat off) data)) (u_downenc u).
 Proof.
-  intros H HF Hres Hs. cbv zeta. destruct (flight_ok _ _ _ _ H) as (A & B & C & D & E & G & S).
+  intros H HF Hres Hs. cbv zeta. destruct (flight_ok _ _ _ _ H) as (A & B & C & D & E & G & S & NE).
   destruct (scd_inflight u w u' o ag ltac:(lia) Hres Hs) as [K _]. cbv zeta in K.
   rewrite K, HF, A, B, E. repeat f_equal.
   rewrite <- (Nat2Z.id (length ps mod 16)). rewrite Z_nat_N. f_equal.
@@ -219,7 +229,7 @@ Lemma flight_complete F data u ps s f :
   concat (ps ++ [firstn (N.to_nat (p_sentlen (u_out u))) (skipn (N.to_nat (p_offset (u_out u))) data)]) = data /\
   p_offset (u_out u) + p_sentlen (u_out u) = p_len (u_out u).
 Proof.
-  intros H Hm Hge. destruct (flight_ok _ _ _ _ H) as (A & B & C & D & E & G & S).
+  intros H Hm Hge. destruct (flight_ok _ _ _ _ H) as (A & B & C & D & E & G & S & NE).
   assert (Hs : p_sentlen (u_out u) = p_len (u_out u) - p_offset (u_out u)) by (unfold dlen in S; lia).
   split; [|lia].
   rewrite concat_app. cbn [concat]. rewrite app_nil_r, D, firstn_skipn_tile.
@@ -232,5 +242,21 @@ Lemma flight_stall_16 F data u ps s f :
 Proof.
   intros H L Hf. destruct (flight_ok _ _ _ _ H) as (_ & _ & _ & _ & E & _). apply ack_miss.
   assert (X : (p_fragment (u_out u) =? f)%Z = false) by (apply Z.eqb_neq; lia).
-  rewrite X. apply andb_false_r.
+  rewrite X, andb_false_r. reflexivity.
 Qed.
+
+(* numbering starts at 0: while nothing of the packet has been acknowledged (offset 0) the fragment
+   counter is 0 -- an ack that names fragment 0 before it was sent is ignored (sentlen = 0) *)
+Lemma flight_from_zero F data u ps :
+  flight F data u ps -> p_offset (u_out u) = 0 -> ps = [] /\ p_fragment (u_out u) = 0%Z.
+Proof.
+  intros H Hz. destruct (flight_ok _ _ _ _ H) as (_ & _ & _ & D & E & _ & _ & NE).
+  rewrite Hz in D. cbn in D.
+  assert (P : ps = []).
+  { destruct ps as [|p ps']; [reflexivity|]. cbn in D. inversion NE as [|x l Hp Hl]. subst.
+    destruct p; [contradiction|discriminate]. }
+  split; [exact P|]. rewrite E, P. reflexivity.
+Qed.
+
+Lemma ack_unsent u s f : p_sentlen (u_out u) = 0 -> process_downstream_ack u s f = u.
+Proof. intros H. apply ack_miss. rewrite H. cbn. apply andb_false_r. Qed.
